@@ -23,13 +23,11 @@ RULE = ('random typed constant-expression trees (depth <= 5, all 4 unary / 18 bi
         'literals from per-type boundary pools) rendered to C and compiled as `T g = EXPR;` for T in all 10 '
         'integer types on x86_64 / arm / msp430 / or1k through ppci.api.c_to_ir; distinct non-trivial = distinct '
         '(target, T, expression) with >= 1 operator whose C value is defined (spec /= None)')
-EXPLANATION = ('c27_eval_exact_partial / c27_converted_partial: unbounded Coq theorems that the (fixed) evaluator '
-               'and the packed global image equal CIntSpec on every expression where ppci\'s expression typing '
-               '(Model/CSema.elab) coincides with C typing (sema_agrees: excludes only operand pairs where '
-               'get_common_type = max rank differs from the usual arithmetic conversions, e.g. unsigned x long '
-               'on ILP32, and unsigned short promotion when short = int); the *_refuted theorems document the '
-               'defects of the unfixed evaluator. sizeof, enum constants, floating constants, pointers in '
-               'constant expressions are not modelled.')
+EXPLANATION = ('c27_eval_exact / c27_converted: unbounded Coq theorems that the evaluator and the packed global image '
+               'equal CIntSpec on every expression (literals, casts, 4 unary, 18 binary operators, ?:) and every data '
+               'model; c27_sema_agrees_all: the typing of CSemantics (Model/CSema.elab, with c83990b) is C typing. The '
+               '*_refuted and *_orig theorems document the defects of the earlier evaluator and typing rule. sizeof, '
+               'enum constants, floating constants, pointers in constant expressions are not modelled.')
 TRUSTED = ['tools/py2coq.py + the op_map extractor in tools/props/c27.py (fail-closed, cross-checked per run)',
            'hand models Model/CEval.v, Model/CSema.v (cross-checked per run against the real typed AST and the real '
            'global image on generated programs)',
@@ -265,12 +263,33 @@ FIXED_WITNESSES = [   # (what, declared type, C source of the initializer, tree)
 
 
 # ------------------------------------------------------------------ case generation
+def boundary_cases(march):
+    """literals at INT_MAX / UINT_MAX / LONG_MAX / ... (and neighbours) of exactly their C type, under
+    sign-sensitive uses: unary minus, ~, /, <, >>, conversion to a wider type"""
+    dm, _, _ = target_dm(march)
+    out = []
+    for t in ('int', 'uint', 'long', 'ulong', 'llong', 'ullong'):
+        hi = S.limits(dm, t)[1]
+        for v in (hi, hi - 1, hi // 2 + 1):
+            L = ('lit', t, v)
+            m1 = ('un', '-', ('lit', 'int', 1))
+            for e in (L, ('un', '-', L), ('un', '~', L), ('bin', '/', ('un', '-', L), ('lit', 'int', 2)),
+                      ('bin', '<', L, m1), ('bin', '>>', ('un', '-', L), ('lit', 'int', 1)),
+                      ('bin', '%', ('un', '-', L), ('lit', 'int', 7)), ('bin', '<', ('un', '-', L), ('lit', 'int', 0)),
+                      ('bin', '+', ('bin', '-', L, L), m1), ('cond', ('lit', 'int', 1), m1, L)):
+                for T in ('llong', 'ullong', 'int'):
+                    out.append((march, T, S.desugar(dm, e), '%s g = %s;' % (S.C_T[T], S.render(dm, e))))
+    return out
+
+
 def gen_cases(ctx, n_per_target, depth):
     """[(march, T, tree(desugared), C source)]"""
     rng = ctx.rng
     out = []
     for march in TARGETS:
         dm, _, _ = target_dm(march)
+        bc = boundary_cases(march)
+        out += bc if n_per_target >= 300 else rng.sample(bc, 90)
         for i in range(n_per_target):
             small = rng.random() < 0.4
             e = S.gen_expr(rng, dm, rng.randint(1, depth), small=small) if rng.random() < 0.25 else \
@@ -282,7 +301,7 @@ def gen_cases(ctx, n_per_target, depth):
 
 def correspondence(ctx, cases, fixed):
     """model vs implementation: (a) typed AST = elab, (b) global image = global_init (elab_init)"""
-    elab, init, ginit, mods = ('elab', 'elab_init', 'global_init', ['Spec.CIntSpec', 'Model.CEval', 'Model.CSema']) \
+    elab, init, ginit, mods = ('elab', 'elab_init CCTX', 'global_init', ['Spec.CIntSpec', 'Model.CEval', 'Model.CSema']) \
         if fixed else ('elab0', 'elab_init0', 'global_init0', ['Spec.CIntSpec', 'Model.CEval', 'Model.CEvalOrig'])
     cc, recs = [], []
     dist = {'ok': 0, 'diag': 0, 'internal': 0, 'ast_exported': 0}
@@ -293,16 +312,13 @@ def correspondence(ctx, cases, fixed):
         ce = S.coq_expr(e)
         if ast_t is not None:
             dist['ast_exported'] += 1
-            cc.append(('%s %s %s' % (init, S.COQ_T[t], ce), ast_t))
+            cc.append(('%s %s %s' % (init.replace('CCTX', cctx), S.COQ_T[t], ce), ast_t))
             recs.append(('ast', march, src, detail))
         if out is Diag:
             dist['diag'] += 1      # literal too big etc.: not modelled, skip
             continue
         dist['ok' if isinstance(out, OkV) else 'internal'] += 1
-        if fixed:
-            cc.append(('%s %s %s (%s %s %s)' % (ginit, cctx, S.COQ_T[t], init, S.COQ_T[t], ce), out))
-        else:
-            cc.append(('%s %s %s (%s %s %s)' % (ginit, cctx, S.COQ_T[t], init, S.COQ_T[t], ce), out))
+        cc.append(('%s %s %s (%s %s %s)' % (ginit, cctx, S.COQ_T[t], init.replace('CCTX', cctx), S.COQ_T[t], ce), out))
         recs.append(('image', march, src, detail))
     ctx.cov['stages']['correspondence_distribution'] = dist
     bad = ctx.run_cases('ceval', mods, cc)
@@ -315,12 +331,10 @@ def correspondence(ctx, cases, fixed):
 
 
 # ------------------------------------------------------------------ search: implementation vs independent oracle
-KNOWN_TYPING = [   # outside the proved fragment: ppci's common type / promotion is not C's (DESIGN §6 item 25, C01)
-    ('x86_64', 'int g = (-1ll) < 1ul;', 'get_common_type(long long, unsigned long) = long long on LP64 (C: unsigned long long)'),
-    ('arm', 'int g = (-1l) < 1u;', 'get_common_type(long, unsigned int) = long on ILP32 (C: unsigned long)'),
-    ('msp430', 'int g = ((unsigned short)65535u) > 0;', 'promote(unsigned short) = int where int is 16 bit (C: unsigned int)'),
+TYPING_WITNESSES = [   # typing defects fixed by c83990b (C01): re-executed on every run
+    ('x86_64', 'int g = (-1ll) < 1ul;', 0), ('arm', 'int g = (-1l) < 1u;', 0),
+    ('msp430', 'int g = ((unsigned short)65535u) > 0;', 1),
 ]
-KNOWN_EXPECT = {'int g = (-1ll) < 1ul;': 0, 'int g = (-1l) < 1u;': 0, 'int g = ((unsigned short)65535u) > 0;': 1}
 
 
 def check_one(ctx, march, t, e, src, stats):
@@ -367,15 +381,15 @@ def search(ctx, cases=None):
             src = '%s g = %s;' % (S.C_T[t], S.render(dm, e))
             stats['witnesses'] += 1
             check_one(ctx, march, t, S.desugar(dm, e), src, stats)
-    # known typing deviations outside the proved fragment: re-executed, reported while they still fail
-    for march, src, what in KNOWN_TYPING:
+    for march, src, expv in TYPING_WITNESSES:
         dm, _, little = target_dm(march)
         _, out, detail = front_end(march, src)
-        exp = spec_bytes(dm, little, 'int', KNOWN_EXPECT[src])
+        exp = spec_bytes(dm, little, 'int', expv)
+        stats['witnesses'] += 1
         if not (isinstance(out, OkV) and out.v == exp):
-            ctx.violation({'fn': 'expression typing (get_common_type/promote)', 'class': 'outside-fragment',
-                           'key': 'typing', 'args': [march, src], 'expected': exp.hex(),
-                           'actual': out.v.hex() if isinstance(out, OkV) else detail, 'what': what})
+            stats['violations'] += 1
+            ctx.violation({'fn': 'expression typing (get_common_type/promote)', 'args': [march, src],
+                           'expected': exp.hex(), 'actual': out.v.hex() if isinstance(out, OkV) else detail})
     deep = (not ctx.quick()) or bool(ctx.failed_stages)
     if cases is None:
         cases = gen_cases(ctx, 700 if deep else 120, 5)
@@ -422,7 +436,7 @@ def spec_cross_check(ctx, cases):
         cdm = S.coq_dm(dm)
         cc.append(('eval %s %s' % (cdm, S.coq_expr(e)), S.ev(dm, e)))
         cc.append(('ity_tag (type_of %s %s)' % (cdm, S.coq_expr(e)), S.TYPES.index(S.type_of(dm, e))))
-        cc.append(('sema_agrees %s %s' % (cdm, S.coq_expr(e)), S.sema_agrees(dm, e)))
+        cc.append(('sema_agrees %s %s %s' % (target_dm(march)[1], cdm, S.coq_expr(e)), S.sema_agrees(dm, e)))
     bad = ctx.run_cases('spec', ['Spec.CIntSpec', 'Model.CEval', 'Model.CSema'], cc)
     if bad:
         ctx.log('Python oracle and Coq Spec disagree on', [cases[i // 3][3] for i in bad[:3]])
@@ -472,13 +486,12 @@ def run(ctx):
 
 
 MANIFEST = {
-    'text': 'proof (partial in one stated respect): unbounded Coq theorems that the constant-expression evaluator of '
+    'text': 'proof: unbounded Coq theorems that the constant-expression evaluator of '
             'ppci/lang/c/eval.py (with fixes/C27-operators, C27-convert, C27-sema-promotions applied) returns exactly the '
             'C11 value (truncating / and %, shifts, bitwise, comparisons, && || ! ?:, casts, integer promotions, usual '
             'arithmetic conversions, wrap of unsigned results) and that `T g = e;` is packed as the object representation '
-            'of the value converted to T, for every data model and every expression on which ppci\'s typing coincides with '
-            'C typing (sema_agrees; exceptions enumerated by theorems: ulong x llong on LP64, uint x long on ILP32, '
-            'unsigned short where int is 16 bit). The defects of the previous evaluator are recorded as refuted theorems '
+            'of the value converted to T, for every data model and every expression of the modelled syntax (c27_eval_exact, c27_converted; '
+            'c27_sema_agrees_all: the typing of CSemantics, with c83990b, is C typing on every operand pair). The defects of the previous evaluator are recorded as refuted theorems '
             'with witnesses (7 % 3, 1 < 2, -7 / 2, UINT_MAX + 1u, unsigned char g = 300).',
     'note': 'trusted: Coq kernel; py2coq + op_map extractor (helpers and operator lambdas regenerated from eval.py per run); '
             'hand models of eval_expr/pack (Model/CEval.v) and of CSemantics typing (Model/CSema.v), cross-checked per run '
